@@ -18,7 +18,7 @@ def interrogate_filter(path):
     """
     # Ask for the filter attributes of file on path (-z = null-terminated fields)
     try:
-        spec = check_output(['git', 'check-attr', '-z', 'filter', path])
+        spec = check_output(['git', 'check-attr', '-z', 'filter', '--', path])
     except CalledProcessError:
         return None
     try:
